@@ -166,8 +166,8 @@ Proof.
   - step_cases H. apply (InvN_mono b); auto.
 Qed.
 
-Lemma InvN_step2 : forall s l s', InvA (base s) -> InvC (base s) -> InvN (base s) ->
-  step2 s l = Some s' -> InvN (base s').
+Lemma InvN_step2i : forall s l s', InvA (base s) -> InvC (base s) -> InvN (base s) ->
+  step2i s l = Some s' -> InvN (base s').
 Proof.
   intros s l s' IA IC IN H. pose proof IN as [A N G S O R]. apply step2_inv in H. destruct H.
   - eapply InvN_step1; eauto. apply lifted_old_ok; auto.
@@ -291,8 +291,8 @@ Proof.
   - step_cases H. apply (InvR_mono b); auto.
 Qed.
 
-Lemma InvR_step2 : forall s l s', InvA (base s) -> InvC (base s) -> InvN (base s) -> InvR (base s) ->
-  step2 s l = Some s' -> InvR (base s').
+Lemma InvR_step2i : forall s l s', InvA (base s) -> InvC (base s) -> InvN (base s) -> InvR (base s) ->
+  step2i s l = Some s' -> InvR (base s').
 Proof.
   intros s l s' IA IC IN IR H. pose proof IR as [L S C P D R]. apply step2_inv in H. destruct H.
   - eapply InvR_step1; eauto. apply lifted_old_ok; auto.
@@ -323,6 +323,20 @@ Proof.
         unfold getc in PC. rewrite PC in Y. discriminate.
       * eauto.
   - apply (InvR_mono (base s)); auto.
+Qed.
+
+Lemma InvN_step2 : forall s l s', InvA (base s) -> InvC (base s) -> InvN (base s) ->
+  step2 s l = Some s' -> InvN (base s').
+Proof.
+  intros s l s' A C N H. apply step2_flush in H. destruct H as (s1 & H & E). subst. rewrite base_flush.
+  eapply InvN_step2i; eauto.
+Qed.
+
+Lemma InvR_step2 : forall s l s', InvA (base s) -> InvC (base s) -> InvN (base s) -> InvR (base s) ->
+  step2 s l = Some s' -> InvR (base s').
+Proof.
+  intros s l s' A C N R H. apply step2_flush in H. destruct H as (s1 & H & E). subst. rewrite base_flush.
+  eapply InvR_step2i; eauto.
 Qed.
 
 (* ---- all of them over every history ------------------------------------------------------------ *)
@@ -375,10 +389,9 @@ Proof.
   intros [[sid seq] b] ks s. unfold dispatch2.
   assert (RJ : forall (e : event) l i, (forall v, e <> EDisp i v) -> In (EDisp i VRetry) (e :: l) -> In (EDisp i VRetry) l).
   { intros e l i N [X|X]; auto. destruct (N _ X). }
-  assert (FAIL : wire_step s (fail2 (upd_base (log (ERecv sid seq)) s))).
-  { apply ws_quiet; [rewrite base_fail2; reflexivity|]. unfold same_salt, fail2, warn2. cbn [upd_base wb wch bump_failed].
-    destruct (wch s) as [|cap n]; [|destruct (Nat.ltb n cap)]; repeat split; auto;
-      unfold rejected; simpl; intros i [X|X]; try discriminate; auto. }
+  assert (FAIL : wire_step s (fail2 (KTail sid seq :: ks) (upd_base (log (ERecv sid seq)) s))).
+  { apply ws_quiet; [reflexivity|]. unfold same_salt, fail2. cbn [upd_base wb bump_failed set_perr adopt base].
+    repeat split; auto; unfold rejected; simpl; intros i [X|X]; try discriminate; auto. }
   destruct (negb (decodes (hinted_for b (base s)) b)); [exact FAIL|].
   destruct (strip b) eqn:SB; try exact FAIL.
   - destruct (lookup req (table (base s))); [|exact FAIL].
@@ -428,7 +441,7 @@ Proof.
   - step_cases H. apply Q; auto.
 Qed.
 
-Lemma step2_wire : forall s l s', InvA (base s) -> step2 s l = Some s' -> wire_step s s'.
+Lemma step2i_wire : forall s l s', InvA (base s) -> step2i s l = Some s' -> wire_step s s'.
 Proof.
   intros s l s' IA H. apply step2_inv in H. destruct H.
   - eapply step1_wire; eauto. apply lifted_old_ok; auto.
@@ -441,6 +454,24 @@ Proof.
   - apply notify_b_inv in H1. destruct H1 as [[_ E]|(t & k & j & L & P & K & E)]; subst b';
       (apply ws_quiet; [reflexivity|]); repeat split; auto.
   - apply ws_quiet; [reflexivity|]. repeat split; auto.
+Qed.
+
+Lemma adopt_warn2' : forall x, adopt (warn2 x) = adopt x.
+Proof. intros x. unfold warn2. destruct (wch x) as [|cap n]; [|destruct (Nat.ltb n cap)]; auto. Qed.
+
+Lemma adopt_flush : forall s, adopt (flush s) = adopt s.
+Proof.
+  intros s. unfold flush. destruct (perr s); auto. destruct (rx (base s)); auto. rewrite adopt_warn2'. reflexivity.
+Qed.
+
+Lemma step2_wire : forall s l s', InvA (base s) -> step2 s l = Some s' -> wire_step s s'.
+Proof.
+  intros s l s' IA H. apply step2_flush in H. destruct H as (s1 & H & E). subst.
+  pose proof (step2i_wire _ _ _ IA H) as W.
+  destruct W as [W (A & B & C & D)|w W SW FR (A & B & C & D)|x c W A B C D E'].
+  - apply ws_quiet; unfold same_salt; rewrite ?base_flush, ?adopt_flush; auto.
+  - eapply ws_write; unfold same_salt; rewrite ?base_flush, ?adopt_flush; eauto.
+  - eapply ws_adopt; rewrite ?base_flush, ?adopt_flush; eauto.
 Qed.
 
 (* ---- InvS: which salt every frame carries ------------------------------------------------------ *)
@@ -629,8 +660,8 @@ Lemma bad_salt_step : forall s clk sid seq b ks i x, keyed s = true ->
     table (base s') = table (base s).
 Proof.
   intros s clk sid seq b ks i x K R SB. eexists. split.
-  - simpl. rewrite K. simpl. unfold step_rx2. rewrite R. reflexivity.
-  - unfold dispatch2. rewrite decodes_service by (rewrite SB; discriminate). simpl. rewrite SB.
+  - unfold step2. simpl. rewrite K. simpl. unfold step_rx2. rewrite R. reflexivity.
+  - rewrite base_flush. unfold dispatch2. rewrite decodes_service by (rewrite SB; discriminate). simpl. rewrite SB.
     destruct (lookup i (table (base s))); simpl; auto.
 Qed.
 
@@ -641,6 +672,6 @@ Lemma new_session_step : forall s clk sid seq b ks x, keyed s = true ->
     rx (base s') = settle (KTail sid seq :: ks).
 Proof.
   intros s clk sid seq b ks x K R SB. eexists. split.
-  - simpl. rewrite K. simpl. unfold step_rx2. rewrite R. reflexivity.
-  - unfold dispatch2. rewrite decodes_service by (rewrite SB; discriminate). simpl. rewrite SB. simpl. auto.
+  - unfold step2. simpl. rewrite K. simpl. unfold step_rx2. rewrite R. reflexivity.
+  - rewrite base_flush. unfold dispatch2. rewrite decodes_service by (rewrite SB; discriminate). simpl. rewrite SB. simpl. auto.
 Qed.
